@@ -7,6 +7,9 @@ CONSTANTS
   MaxT = 2
   Phases <- core_all3_Phases
   ShapeSet <- core_all3_Shapes
+  Signers = {"s1", "s2"}
+  Recipients = {"r1", "r2"}
+  Policies <- core_all3_Policies
   CfgName = "core_all3"
 INIT Init
 NEXT Next
